@@ -21,6 +21,8 @@ var zzParsePrefixes = []string{
 	"import \"a.proto\" ;",
 	"option (a).b = { [c]: 1",
 	"option (a) = { b: 1",
+	"option (a) = { [1]: 2",
+	"option (a) = { [1]: 2; b: 3 }",
 	"enum E { A = 0",
 	"service S { rpc M(",
 	"import option \"a\"",
